@@ -47,6 +47,9 @@ VARIABLES stage, todo, pend, c
 
 Vals == PosVals \cup {0 - v : v \in NegVals}
 GlyphSeq == SubSeq(<<"a", "b", "c", "d">>, 1, NGlyphs)
+\* every group name a generated source may use, in the byte order Rust's BTreeMap iterates them
+NameOrder == <<"A", "A_1", "A_2", "A_3", "B", "B_1", "B_2", "B_3">>
+ASSUME (Names1 \cup Names2) \subseteq {NameOrder[i] : i \in 1..Len(NameOrder)}
 vars == <<stage, todo, pend, c>>
 
 (***************************************************************************)
@@ -166,6 +169,53 @@ Eval(cs) ==
         Divergent(s, g) == \E i \in KS, j \in KS : Grp(i, s, g) # Grp(j, s, g)
         IsRefined(s, n) == \E g \in AllMembers(s, n) : Divergent(s, g)
         Refined(s, n) == {{g \in AllMembers(s, n) : Sig(s, g) = Sig(s, h)} : h \in AllMembers(s, n)}
+        \* ---- refine_divergent_groups: names of the refined classes (cosmetic: they never reach the font, but the
+        \* output classes are a map from NAME to members, so the names have to be unique on a side).  Groups in name
+        \* order (BTreeMap), the classes of a group in member order; the class whose members hold the group in every
+        \* master ("loyal") keeps the group's name -- failing that the first new one does -- the rest get the first free
+        \* <group>_<n>; `taken` starts with every group name of the side; a class two groups refine to is named once.
+        GroupNames(s) == {Grp(i, s, g) : i \in KS, g \in GS} \ {""}
+        RefGroups(s) == {n \in GroupNames(s) : IsRefined(s, n)}
+        Rank(n) == CHOOSE i \in 1..Len(NameOrder) : NameOrder[i] = n
+        RECURSIVE SortNames(_)
+        SortNames(S) == IF S = {} THEN <<>>
+                        ELSE LET m == CHOOSE x \in S : \A y \in S : Rank(x) <= Rank(y)
+                             IN <<m>> \o SortNames(S \ {m})
+        SetLessN(A, B) ==          \* BTreeSet<&GlyphName>: lexicographic (glyph names a..d sort like their ids)
+            /\ A # B
+            /\ LET D == (A \ B) \cup (B \ A)
+                   x == CHOOSE y \in D : \A z \in D : gid[y] <= gid[z]
+               IN IF x \in A THEN \E y \in B : gid[y] > gid[x]
+                             ELSE ~ \E y \in A : gid[y] > gid[x]
+        RECURSIVE SortSets(_)
+        SortSets(S) == IF S = {} THEN <<>>
+                       ELSE LET m == CHOOSE x \in S : \A y \in S \ {x} : SetLessN(x, y)
+                            IN <<m>> \o SortSets(S \ {m})
+        Loyal(s, G, M) == \A i \in KS : Sig(s, CHOOSE x \in M : TRUE)[i] = G
+        Synth(G, taken) ==
+            LET nm(n) == G \o "_" \o ToString(n)
+            IN nm(CHOOSE n \in 1..12 : nm(n) \notin taken /\ \A k \in 1..(n - 1) : nm(k) \in taken)
+        RECURSIVE ClassFold(_, _, _, _, _)
+        ClassFold(s, G, cls, st, free) ==
+            IF cls = <<>> THEN st
+            ELSE LET M == Head(cls)
+                 IN IF \E p \in st.ids : p[1] = M
+                    THEN ClassFold(s, G, Tail(cls), st, free)               \* shared with an earlier group
+                    ELSE LET nm == IF Loyal(s, G, M) \/ free THEN G ELSE Synth(G, st.taken)
+                         IN ClassFold(s, G, Tail(cls),
+                                      [taken |-> st.taken \cup {nm}, ids |-> st.ids \cup {<<M, nm>>}], FALSE)
+        RECURSIVE NameFold(_, _, _)
+        NameFold(s, seq, st) ==
+            IF seq = <<>> THEN st
+            ELSE LET G == Head(seq)
+                 IN NameFold(s, Tail(seq),
+                             ClassFold(s, G, SortSets(Refined(s, G)), st, ~ \E M \in Refined(s, G) : Loyal(s, G, M)))
+        Naming(s) == NameFold(s, SortNames(RefGroups(s)), [taken |-> GroupNames(s), ids |-> {}])
+        N1 == Naming(1)
+        N2 == Naming(2)
+        ClashOn(s, st) == \/ \E p \in st.ids, q \in st.ids : p # q /\ p[2] = q[2]
+                          \/ \E p \in st.ids : p[2] \in GroupNames(s) \ RefGroups(s)
+        NameClash == ClashOn(1, N1) \/ ClashOn(2, N2)
         GUnit(g) == [k |-> "g", g |-> g, mem |-> {}, nm |-> <<>>]
         Units(s, kind, name) ==
             IF kind = "g" THEN {GUnit(name)}
@@ -263,8 +313,10 @@ Eval(cs) ==
         prop    |-> [n \in 1..Len(KSeq) |-> KSeq[n] \in PM],
         exp     |-> exp,
         model   |-> model,
-        designOk |-> IF cs.model THEN model = exp ELSE TRUE,
+        designOk |-> IF cs.model THEN model = exp /\ ~NameClash ELSE TRUE,
         conflict |-> IF cs.model THEN Conflict ELSE FALSE,
+        nameClash |-> IF cs.model THEN NameClash ELSE FALSE,
+        classNames |-> IF cs.model THEN <<N1.ids, N2.ids>> ELSE <<>>,
         overlap  |-> IF cs.model THEN Overlap ELSE FALSE,
         struct   |-> IF cs.model THEN [n \in 1..Len(Lookup) |-> StructOf(Lookup[n])] ELSE <<>>,
         nontrivial |-> \E n \in 1..Len(KSeq), a \in 1..NG, b \in 1..NG : exp[n][a][b] # 0]
